@@ -32,6 +32,8 @@ class Module:
             self.tree = ast.parse(src, filename=rel)
         except SyntaxError as exc:  # pragma: no cover
             raise AnalysisError(f"{rel} does not parse: {exc}")
+
+    def annotate(self):
         for parent in ast.walk(self.tree):
             for child in ast.iter_child_nodes(parent):
                 child._parent = parent  # type: ignore[attr-defined]
@@ -68,6 +70,11 @@ class Repo:
         for rel, src in self.overlay.items():
             if rel not in self.modules and rel.endswith(".py"):
                 self.modules[rel] = Module(rel, src)
+        # behaviour-preserving refactorings (new helper / constant / renamed method) are undone before any rule looks
+        from . import normalize as _norm
+        self.normalization = _norm.normalize(self.modules)
+        for m in self.modules.values():
+            m.annotate()
         self._index()
 
     # -- indexing ---------------------------------------------------------------
@@ -369,6 +376,7 @@ def write_evidence(ctx: Ctx, wall: float, violations: list, known: list, status:
             "trusted_base": ["CPython ast/compile", "the rule idiom lists in /verif/rules"],
             "source_digest": ctx.repo.digest(),
             "notes": ctx.notes[:50],
+            "normalised_before_analysis": ctx.repo.normalization.lines()[:40],
             "status": status,
         },
         "assumptions": ctx.assumptions,
